@@ -4,7 +4,7 @@
    never raises after an effect), and its corollary in the form  gen_update_<class> .. = update (K<Kind> ..) .. .
    An edit of the source that changes what a method does changes the generated term, and these proofs stop checking. *)
 From Coq Require Import List ZArith Bool Arith Lia.
-From SZ Require Import Base.Values Sync.Nodes Base.MiniPy.
+From SZ Require Import Base.Values Sync.Nodes Base.MiniPy Base.BridgeTac.
 From SZ Require Sync.NodeSem2.
 From SZ Require Import Gen.KN_accumulate Gen.KN_map Gen.KN_filter Gen.KN_starmap Gen.KN_pluck Gen.KN_union Gen.KN_Stream.
 From SZ Require Import Gen.KN_flatten Gen.KN_partition Gen.KN_sliding_window Gen.KN_unique Gen.KN_collect Gen.KN_slice.
@@ -44,6 +44,28 @@ Proof.
 Qed.
 Ltac pyr := repeat (progress (py; rewrite ?bind_bind, ?bind_rd, ?bind_ret)).
 
+(* Execute, and split on whatever the generated method or the model still asks (innermost scrutinee first; a compound test
+   is split atom by atom), until both sides are the same value.  The script does not mention the order, the number or the
+   nesting of the generated steps.  [tac] is run after every execution step (rewrites with arithmetic facts). *)
+Ltac splittable d ::= lazymatch type of d with res _ _ => fail | _ => idtac end.   (* a run is executed, not split *)
+(* a test of MiniPy.v on a variable is decided by the shape of the variable *)
+Ltac var_or v d :=
+  match constr:(Set) with
+  | _ => let _ := match goal with _ => is_var v end in constr:(v)
+  | _ => constr:(d)
+  end.
+Ltac subject d ::=
+  lazymatch d with
+  | pick_is_list ?v => var_or v d | is_none ?v => var_or v d | is_none_fn ?v => var_or v d
+  | is_no_default ?v => var_or v d | truthy_md ?v => var_or v d | truthy_list ?v => var_or v d
+  | truthy_optmd ?v => var_or v d | truthy_optnat ?v => var_or v d | items ?v => var_or v d
+  | _ => d
+  end.
+Ltac crunch_with tac := repeat (repeat (progress (pyr; tac)); first [reflexivity | split_once]).
+Ltac crunch := crunch_with idtac.
+(* leaves that need arithmetic: a test spelled differently on the two sides leaves contradictory assumptions *)
+Ltac leaves := cbn [length] in *; arith_leaf.
+
 (* the literal form follows from the strong one *)
 Lemma weaken r o : r = of_option o -> to_option r = o.
 Proof. intros ->. apply to_of_option. Qed.
@@ -61,17 +83,13 @@ Proof. apply weaken, bridge_run_union. Qed.
 
 (* ---- map ----------------------------------------------------------------------------------------------------- *)
 Theorem bridge_run_map f s p x m : gen_run_map f s p x m = of_option (update (KMap f) s p x m).
-Proof.
-  unfold gen_run_map, gen_body_map. cbn [update]. destruct (f x); reflexivity.
-Qed.
+Proof. unfold gen_run_map, gen_body_map. cbn [update]. crunch. Qed.
 Theorem bridge_update_map f s p x m : gen_update_map f s p x m = update (KMap f) s p x m.
 Proof. apply weaken, bridge_run_map. Qed.
 
 (* ---- filter -------------------------------------------------------------------------------------------------- *)
 Theorem bridge_run_filter f s p x m : gen_run_filter f s p x m = of_option (update (KFilter f) s p x m).
-Proof.
-  unfold gen_run_filter, gen_body_filter. cbn [update]. destruct (f x) as [[|]|]; reflexivity.
-Qed.
+Proof. unfold gen_run_filter, gen_body_filter. cbn [update]. crunch. Qed.
 Theorem bridge_update_filter f s p x m : gen_update_filter f s p x m = update (KFilter f) s p x m.
 Proof. apply weaken, bridge_run_filter. Qed.
 
@@ -79,8 +97,7 @@ Proof. apply weaken, bridge_run_filter. Qed.
 Theorem bridge_run_starmap f s p x m : gen_run_starmap f [] s p x m = of_option (update (KStarmap f) s p x m).
 Proof.
   unfold gen_run_starmap, gen_body_starmap. cbn [update].
-  destruct x as [z|l|l|]; try reflexivity. cbn [tuple_add]. rewrite app_nil_r. cbn [lift star items bind ret].
-  destruct (f l); reflexivity.
+  crunch_with ltac:(cbn [tuple_add star items]; rewrite ?app_nil_r).
 Qed.
 Theorem bridge_update_starmap f s p x m : gen_update_starmap f [] s p x m = update (KStarmap f) s p x m.
 Proof. apply weaken, bridge_run_starmap. Qed.
@@ -91,9 +108,8 @@ Proof. induction l as [|a t IH]; cbn; [reflexivity|]. destruct (f a); [rewrite I
 
 Theorem bridge_run_pluck pk s p x m : gen_run_pluck pk s p x m = of_option (update (KPluck pk) s p x m).
 Proof.
-  unfold gen_run_pluck, gen_body_pluck. destruct pk as [i|l]; cbn [update pick_is_list pick_list pick_one].
-  - destruct (py_index x i); reflexivity.
-  - rewrite map_opt_all_some. destruct (all_some _); reflexivity.
+  unfold gen_run_pluck, gen_body_pluck. cbn [update].
+  crunch_with ltac:(cbn [pick_is_list pick_list pick_one]; rewrite ?map_opt_all_some).
 Qed.
 Theorem bridge_update_pluck pk s p x m : gen_update_pluck pk s p x m = update (KPluck pk) s p x m.
 Proof. apply weaken, bridge_run_pluck. Qed.
@@ -103,13 +119,8 @@ Theorem bridge_run_accumulate f start rs ws s p x m :
   gen_run_accumulate f rs ws s p x m = of_option (update (KAccum f start rs ws) s p x m).
 Proof.
   unfold gen_run_accumulate, gen_body_accumulate. cbn [update].
-  destruct s as [acc n det keyed win seen ports last]. py.
-  destruct acc as [a|]; py.
-  - destruct (f a x) as [r|]; py; [|reflexivity].
-    destruct rs; py.
-    + unfold unpack2. destruct (items r) as [[|st [|res [|? ?]]]|]; py; try reflexivity. destruct ws; reflexivity.
-    + destruct ws; reflexivity.
-  - destruct ws; reflexivity.
+  destruct s as [acc n det keyed win seen ports last].
+  crunch_with ltac:(unfold unpack2).
 Qed.
 Theorem bridge_update_accumulate f start rs ws s p x m :
   gen_update_accumulate f rs ws s p x m = update (KAccum f start rs ws) s p x m.
@@ -164,13 +175,10 @@ Theorem bridge_run_partition n key s p x m :
 Proof.
   unfold gen_run_partition, gen_body_partition. cbn [update].
   destruct s as [acc cnt det keyed win seen ports last].
-  set (ky := match key with Some kf => kf x | None => VNone end).
-  assert (K : forall (k : val -> M nstate unit) s0,
-            bind (if is_none_fn key then ret VNone else bind (call (opt_callf key x)) (fun v2 => ret v2)) k s0 = k ky s0).
-  { intros k s0. destruct key; py; destruct (k _ s0); reflexivity. }
-  py. rewrite K. unfold_partition. py. norm_assoc.
-  destruct (assoc_get ky keyed) as [[vs ms]|] eqn:E; py;
-    match goal with |- context [length ?l =? n] => destruct (length l =? n) end; norm_assoc; reflexivity.
+  (* however the source computes the key (helper, inlined if/elif, conditional expression): decide it first *)
+  destruct key as [kf|]; unfold_partition; pyr; norm_assoc;
+    match goal with |- context [assoc_get ?k keyed] => destruct (assoc_get k keyed) as [[vs ms]|] eqn:E end; pyr; norm_assoc;
+    repeat (split_eqb; norm_assoc); reflexivity.
 Qed.
 Theorem bridge_update_partition n key s p x m :
   gen_update_partition n key s p x m = update (KPartition n key) s p x m.
@@ -194,13 +202,10 @@ Proof.
   unfold sliding_window__buffer, sliding_window__buffer_append, sliding_window_metadata_buffer,
     sliding_window_metadata_buffer_append, sliding_window_metadata_buffer_popleft.
   destruct s as [acc cnt det keyed win seen ports last]. py.
-  rewrite last_lastn_snoc by exact Hn.
+  rewrite ?last_lastn_snoc by exact Hn.
   set (vals := lastn n (seen ++ [x])). set (w' := lastn n (win ++ [(x, m)])).
-  destruct (partial || (length vals =? n)); py; [|reflexivity].
-  rewrite map_length, flatten_md_map_snd.
-  destruct (length w' =? n) eqn:E; py; [|reflexivity].
-  destruct w' as [|[x0 hm] t]; py; [|reflexivity].
-  apply Nat.eqb_eq in E. cbn in E. lia.
+  crunch_with ltac:(rewrite ?map_length, ?flatten_md_map_snd).
+  all: leaves.
 Qed.
 Theorem bridge_update_sliding_window n partial s p x m : 1 <= n ->
   gen_update_sliding_window n partial s p x m = update (KSliding n partial) s p x m.
@@ -212,8 +217,8 @@ Theorem bridge_run_unique maxsize key s p x m :
 Proof.
   unfold gen_run_unique, gen_body_unique. cbn [update].
   unfold unique_seen_contains, unique_seen_remove, unique_seen_insert, unique_seen_delfrom.
-  destruct s as [acc cnt det keyed win seen ports last]. py.
-  destruct (mem_val (key x) seen); py; destruct maxsize as [[|k]|]; py; reflexivity.
+  destruct s as [acc cnt det keyed win seen ports last].
+  crunch.
 Qed.
 Theorem bridge_update_unique maxsize key s p x m :
   gen_update_unique maxsize key s p x m = update (KUnique maxsize key) s p x m.
@@ -258,12 +263,9 @@ Theorem bridge_run_slice star stop step s p x m : st_detached s = false ->
 Proof.
   intros Hd. unfold gen_run_slice, gen_body_slice. cbn [update].
   unfold slice_state, slice_state_set, slice_detach.
-  destruct s as [acc cnt det keyed win seen ports last]. cbn [st_detached] in Hd. subst det. py.
-  destruct stop as [e|]; cbn [is_none optnat_le negb andb].
-  - destruct (e <=? cnt) eqn:Hf; py; [reflexivity|].
-    destruct ((star <=? cnt) && ((cnt - star) mod step =? 0)); py; rewrite Nat.add_1_r;
-      destruct (e <=? S cnt); py; reflexivity.
-  - py. destruct ((star <=? cnt) && ((cnt - star) mod step =? 0)); py; rewrite Nat.add_1_r; reflexivity.
+  destruct s as [acc cnt det keyed win seen ports last]. cbn [st_detached] in Hd. subst det.
+  crunch_with ltac:(rewrite ?Nat.add_1_r; cbn [is_none optnat_le Nat.add]).
+  all: leaves.
 Qed.
 Theorem bridge_update_slice star stop step s p x m : st_detached s = false ->
   gen_update_slice star stop step s p x m = update (KSlice star stop step) s p x m.
@@ -323,6 +325,9 @@ Qed.
 Lemma weaken_strip r o : strip_r r = strip_r (of_option o) -> option_map strip (to_option r) = option_map strip o.
 Proof. destruct r, o; cbn; intros H; try discriminate; try reflexivity. injection H as ->. reflexivity. Qed.
 
+(* As for zip_latest below: first decide everything the method can ask about the state (was this upstream's entry
+   present, was its stored metadata empty, are all entries present afterwards, does this upstream trigger an emission),
+   turn the answers into rewrite rules, then only execute. *)
 Theorem bridge_run_combine_latest eo s p x m : p < length (st_last s) ->
   strip_r (gen_run_combine_latest eo s p x m) = strip_r (of_option (update (KCombineLatest eo) s p x m)).
 Proof.
@@ -330,31 +335,28 @@ Proof.
   unfold combine_latest_store, latest_load, combine_latest_last, combine_latest_last_setitem, combine_latest_metadata,
     combine_latest_metadata_getitem, combine_latest_metadata_setitem, combine_latest_missing,
     combine_latest_missing_contains, combine_latest_missing_remove.
-  destruct s as [acc cnt det keyed win seen ports L]. cbn [st_last] in Hp. py.
+  destruct s as [acc cnt det keyed win seen ports L]. cbn [st_last] in Hp.
   set (L' := set_nth p (Some (x, m)) L).
   assert (Ev : set_nth p x (map latest_val L) = map latest_val L') by (unfold L'; rewrite map_set_nth; reflexivity).
   assert (Em : set_nth p (Some m) (map latest_md L) = map latest_md L') by (unfold L'; rewrite map_set_nth; reflexivity).
   assert (Ei : set_nth p false (map is_none L) = map is_none L') by (unfold L'; rewrite map_set_nth; reflexivity).
   assert (F := latest_full L').
-  rewrite (nth_map_in latest_md p L None None Hp).
-  destruct (nth p L None) as [[ov om]|] eqn:Eo; cbn [latest_md option_map snd truthy_optmd].
-  - (* the upstream had emitted before: its old metadata is released (unless empty); it is not missing *)
-    assert (Ei' : map is_none L = map is_none L').
-    { rewrite <- Ei. symmetry. apply set_nth_same with (d := false); [|rewrite map_length; exact Hp].
-      rewrite (nth_map_in is_none p L None false Hp), Eo. reflexivity. }
-    destruct om as [|i om]; pyr; rewrite ?(nth_map_in latest_md p L None None Hp), ?Eo; cbn [latest_md option_map snd]; pyr;
-      rewrite (nth_map_in is_none p L None false Hp), Eo; cbn [is_none]; rewrite andb_false_r; pyr;
-      rewrite ?Ei';
-      (destruct (all_some L') as [full|]; [destruct F as [F1 [F2 F3]]; rewrite <- ?F2|]; rewrite ?F1, ?F; cbn [negb andb];
-       [destruct (combine_latest_emit_on_contains eo p) eqn:T; unfold combine_latest_emit_on_contains in T; rewrite T|];
-       repeat (progress (pyr; rewrite ?Ev, ?Em, ?Ei, ?F3, ?latest_roundtrip)); reflexivity).
-  - (* first element from this upstream *)
-    pyr. rewrite (nth_map_in is_none p L None false Hp), Eo; cbn [is_none].
-    rewrite (truthy_flags_nth p (map is_none L)) by (rewrite (nth_map_in is_none p L None false Hp), Eo; reflexivity).
-    pyr. rewrite ?Ei.
-    destruct (all_some L') as [full|]; [destruct F as [F1 [F2 F3]]; rewrite <- ?F2|]; rewrite ?F1, ?F; cbn [negb andb];
-      [destruct (combine_latest_emit_on_contains eo p) eqn:T; unfold combine_latest_emit_on_contains in T; rewrite T|];
-      repeat (progress (pyr; rewrite ?Ev, ?Em, ?Ei, ?F3, ?latest_roundtrip)); reflexivity.
+  assert (Nmd := nth_map_in latest_md p L None None Hp).
+  assert (Nis := nth_map_in is_none p L None false Hp).
+  assert (T : combine_latest_emit_on_contains eo p =
+              match eo with Some ps => existsb (Nat.eqb p) ps | None => true end) by reflexivity.
+  destruct (match eo with Some ps => existsb (Nat.eqb p) ps | None => true end) eqn:Tr;
+  destruct (nth p L None) as [[ov om]|] eqn:Eo; cbn [latest_md option_map snd is_none] in Nmd, Nis.
+  all: try (assert (Ei' : map is_none L = map is_none L')
+              by (rewrite <- Ei; symmetry; apply set_nth_same with (d := false); [exact Nis | rewrite map_length; exact Hp]);
+            assert (Nis' : nth p (map is_none L') false = false) by (rewrite <- Ei'; exact Nis)).
+  all: try (assert (Et : truthy_flags (map is_none L) = true) by (apply (truthy_flags_nth p); exact Nis)).
+  all: try (destruct om as [|i om]).
+  all: destruct (all_some L') as [full|] eqn:EA; [destruct F as [F1 [F2 F3]]|].
+  all: repeat (progress (pyr; fold L'; rewrite ?Eo, ?Nmd, ?Nis, ?Nis', ?Ev, ?Em, ?Ei', ?Ei, ?Et, ?EA, ?F1, ?F3, ?F, ?T, ?Tr,
+                                   ?latest_roundtrip; rewrite <- ?F2;
+                         cbn [truthy_optmd orb andb negb latest_val latest_md option_map fst snd])).
+  all: reflexivity.
 Qed.
 
 Theorem bridge_update_combine_latest eo s p x m : p < length (st_last s) ->
@@ -467,6 +469,16 @@ Ltac loop_leaf T others hv0 hm0 buf F2 F3 :=
   unfold mk, zip_latest_store; cbn [ls_last ls_meta ls_missing ls_buf latest_zip]; rewrite ?latest_roundtrip;
   reflexivity.
 
+Lemma truthy_flags_cons b l : truthy_flags (b :: l) = b || truthy_flags l.
+Proof. reflexivity. Qed.
+
+(* a leaf in which the loop does not run: the final state is committed once *)
+Ltac store_leaf Ev := unfold zip_latest_store; pz; cbn [latest_zip]; rewrite ?Ev, ?latest_roundtrip; reflexivity.
+
+(* The proof first decides everything the method can ask about the state (is the entry of this upstream / of the lossless
+   upstream present, is its stored metadata empty, are all the others present), turns the answers into rewrite rules for
+   the forms these questions take after unfolding, and then only executes: it does not depend on how the source nests,
+   merges, orders or negates its tests. *)
 Theorem bridge_run_zip_latest s p x m : p < length (st_last s) ->
   strip_r (gen_run_zip_latest s p x m) = strip_r (of_option (update KZipLatest s p x m)).
 Proof.
@@ -475,17 +487,10 @@ Proof.
   destruct L as [|o T0]; [cbn in Hp; lia|].
   destruct p as [|p'].
   - (* the lossless upstream *)
-    unfold_zl. pz.
-    assert (F := latest_full T0).
-    assert (E1 : truthy_flags (is_none o :: map is_none T0) && is_none o = is_none o).
-    { destruct o; cbn [is_none]; [apply andb_false_r | reflexivity]. }
-    rewrite E1.
-    destruct o as [[ov om]|]; pz; unfold truthy_flags at 1; cbn [existsb orb]; fold (truthy_flags (map is_none T0)).
-    all: destruct (all_some T0) as [others|]; [destruct F as [F1 [F2 F3]]|]; rewrite ?F1, ?F; pz.
-    + loop_leaf T0 others x (Some m) (win ++ [(x, m)]) F2 F3.
-    + unfold zip_latest_store; pz. cbn [latest_zip]. rewrite ?latest_roundtrip. reflexivity.
-    + loop_leaf T0 others x (Some m) (win ++ [(x, m)]) F2 F3.
-    + unfold zip_latest_store; pz. cbn [latest_zip]. rewrite ?latest_roundtrip. reflexivity.
+    assert (F := latest_full T0). unfold_zl.
+    destruct o as [[ov om]|]; (destruct (all_some T0) as [others|] eqn:EA; [destruct F as [F1 [F2 F3]]|]);
+      repeat (progress (pz; rewrite ?truthy_flags_cons, ?EA, ?F1, ?F; cbn [orb andb negb]));
+      first [ loop_leaf T0 others x (Some m) (win ++ [(x, m)]) F2 F3 | store_leaf F2 ].
   - (* another upstream *)
     assert (Hp' : p' < length T0) by (cbn in Hp; lia).
     set (T' := set_nth p' (Some (x, m)) T0).
@@ -493,34 +498,26 @@ Proof.
     assert (Em : set_nth p' (Some m) (map latest_md T0) = map latest_md T') by (unfold T'; rewrite map_set_nth; reflexivity).
     assert (Ei : set_nth p' false (map is_none T0) = map is_none T') by (unfold T'; rewrite map_set_nth; reflexivity).
     assert (F := latest_full T').
-    unfold_zl. pz. fold T'.
-    rewrite (nth_map_in latest_md p' T0 None None Hp').
-    destruct (nth p' T0 None) as [[ov om]|] eqn:Eo; cbn [latest_md option_map snd truthy_optmd].
-    + assert (Ei' : map is_none T0 = map is_none T').
-      { rewrite <- Ei. symmetry. apply set_nth_same with (d := false); [|rewrite map_length; exact Hp'].
-        rewrite (nth_map_in is_none p' T0 None false Hp'), Eo. reflexivity. }
-      destruct om as [|i om]; pz; rewrite ?(nth_map_in latest_md p' T0 None None Hp'), ?Eo; cbn [latest_md option_map snd]; pz;
-        rewrite (nth_map_in is_none p' T0 None false Hp'), Eo; cbn [is_none]; rewrite andb_false_r; pz;
-        rewrite ?Ev, ?Em, ?Ei'.
-      all: destruct o as [[v0 m0]|]; cbn [is_none latest_val latest_md option_map snd];
-        unfold truthy_flags at 1; cbn [existsb orb negb]; fold (truthy_flags (map is_none T')); pz.
-      all: try (unfold zip_latest_store; pz; cbn [latest_zip]; rewrite ?Ev, ?latest_roundtrip; reflexivity).
-      all: destruct (all_some T') as [others|]; [destruct F as [F1 [F2 F3]]|]; rewrite ?F1, ?F; pz.
-      all: try (unfold zip_latest_store; pz; cbn [latest_zip]; rewrite ?Ev, ?latest_roundtrip; reflexivity).
-      * rewrite ?Ev. loop_leaf T' others v0 (Some m0) win F2 F3.
-      * rewrite ?Ev. loop_leaf T' others v0 (Some m0) win F2 F3.
-    + pz. rewrite (nth_map_in is_none p' T0 None false Hp'), Eo; cbn [is_none].
-      assert (Et : truthy_flags (is_none o :: map is_none T0) = true).
-      { unfold truthy_flags. cbn [existsb]. fold (truthy_flags (map is_none T0)).
-        rewrite (truthy_flags_nth p' (map is_none T0)) by (rewrite (nth_map_in is_none p' T0 None false Hp'), Eo; reflexivity).
-        apply orb_true_r. }
-      rewrite Et. pz. rewrite ?Ev, ?Em, ?Ei.
-      destruct o as [[v0 m0]|]; cbn [is_none latest_val latest_md option_map snd];
-        unfold truthy_flags at 1; cbn [existsb orb negb]; fold (truthy_flags (map is_none T')); pz.
-      all: try (unfold zip_latest_store; pz; cbn [latest_zip]; rewrite ?Ev, ?latest_roundtrip; reflexivity).
-      destruct (all_some T') as [others|]; [destruct F as [F1 [F2 F3]]|]; rewrite ?F1, ?F; pz.
-      all: try (unfold zip_latest_store; pz; cbn [latest_zip]; rewrite ?Ev, ?latest_roundtrip; reflexivity).
-      loop_leaf T' others v0 (Some m0) win F2 F3.
+    assert (Nmd := nth_map_in latest_md p' T0 None None Hp').
+    assert (Nis := nth_map_in is_none p' T0 None false Hp').
+    unfold_zl.
+    destruct (nth p' T0 None) as [[ov om]|] eqn:Eo; cbn [latest_md option_map snd is_none] in Nmd, Nis.
+    + (* it had emitted before: its old metadata is released (unless empty); the set of missing upstreams is unchanged *)
+      assert (Ei' : map is_none T0 = map is_none T').
+      { rewrite <- Ei. symmetry. apply set_nth_same with (d := false); [|rewrite map_length; exact Hp']. exact Nis. }
+      assert (Nis' : nth p' (map is_none T') false = false) by (rewrite <- Ei'; exact Nis).
+      destruct om as [|i om]; destruct o as [[v0 m0]|];
+        (destruct (all_some T') as [others|] eqn:EA; [destruct F as [F1 [F2 F3]]|]);
+        repeat (progress (pz; fold T'; rewrite ?truthy_flags_cons, ?Eo, ?Nmd, ?Nis, ?Nis', ?Ev, ?Em, ?Ei', ?EA, ?F1, ?F;
+                          cbn [truthy_optmd orb andb negb latest_val latest_md option_map fst snd]));
+        first [ loop_leaf T' others v0 (Some m0) win F2 F3 | store_leaf Ev ].
+    + (* first element from this upstream: it was missing *)
+      assert (Et : truthy_flags (map is_none T0) = true) by (apply (truthy_flags_nth p'); exact Nis).
+      destruct o as [[v0 m0]|];
+        (destruct (all_some T') as [others|] eqn:EA; [destruct F as [F1 [F2 F3]]|]);
+        repeat (progress (pz; fold T'; rewrite ?truthy_flags_cons, ?Eo, ?Nmd, ?Nis, ?Et, ?Ev, ?Em, ?Ei, ?EA, ?F1, ?F;
+                          cbn [truthy_optmd orb andb negb latest_val latest_md option_map fst snd]));
+        first [ loop_leaf T' others v0 (Some m0) win F2 F3 | store_leaf Ev ].
 Qed.
 
 Theorem bridge_update_zip_latest s p x m : p < length (st_last s) ->
@@ -607,18 +604,18 @@ Proof.
   - (* keep = 'last' *)
     pu. rewrite GM. destruct (assoc_get y K) as [[ovs om]|] eqn:G; cbn [option_map snd truthy_optmd].
     + destruct om as [|i om]; fin_pu SB SM RB RM GB GM;
-        (destruct (length (assoc_remove y K ++ [(y, ([x], m))]) =? n); fin_pu SB SM RB RM GB GM;
+        (split_eqb; fin_pu SB SM RB RM GB GM;
          unfold partition_unique_store; fin_pu SB SM RB RM GB GM; reflexivity).
     + fin_pu SB SM RB RM GB GM;
-        (destruct (length (assoc_remove y K ++ [(y, ([x], m))]) =? n); fin_pu SB SM RB RM GB GM;
+        (split_eqb; fin_pu SB SM RB RM GB GM;
          unfold partition_unique_store; fin_pu SB SM RB RM GB GM; reflexivity).
   - (* keep = 'first' *)
     pu. rewrite GB. destruct (assoc_get y K) as [[ovs om]|] eqn:G; cbn [option_map is_none negb].
     + destruct m as [|i m]; fin_pu SB SM RB RM GB GM;
-        (destruct (length K =? n); fin_pu SB SM RB RM GB GM;
+        (split_eqb; fin_pu SB SM RB RM GB GM;
          unfold partition_unique_store; fin_pu SB SM RB RM GB GM; reflexivity).
     + fin_pu SB SM RB RM GB GM;
-        (destruct (length (K ++ [(y, ([x], m))]) =? n); fin_pu SB SM RB RM GB GM;
+        (split_eqb; fin_pu SB SM RB RM GB GM;
          unfold partition_unique_store; fin_pu SB SM RB RM GB GM; reflexivity).
 Qed.
 
@@ -700,18 +697,18 @@ Proof.
   unfold zip_buffers_getitem, zip_buffers_item_append, zip_buffers_values, zip_buffers_each_popleft, zip_upstreams.
   destruct s as [acc cnt det keyed win seen ports last]. cbn [st_ports] in Hp. pyr.
   set (L := nth p ports [] ++ [(x, m)]). set (B := set_nth p L ports).
-  unfold B at 1. rewrite (nth_set_nth_same p L [] ports Hp). fold B.
-  rewrite forallb_truthy.
-  destruct ((length L =? 1) && forallb (fun b => negb (length b =? 0)) B) eqn:C; pyr.
-  - apply andb_true_iff in C as [_ C]. rewrite <- forallb_truthy in C.
-    rewrite bind_unfold.
+  assert (NB : nth p B [] = L) by (apply nth_set_nth_same, Hp).
+  rewrite ?NB, <- ?forallb_truthy.
+  (* the two things update asks, decided one by one (in whatever order and spelling the source tests them) *)
+  split_eqb_on (length L) 1; destruct (forallb truthy_list B) eqn:C; cbn [andb]; pyr; rewrite ?NB.
+  1: { rewrite bind_unfold.
     match goal with |- context [mapM ?f (seq 0 (length B)) ?st] =>
       assert (Hf : forall up s, f up s = match nth_error (nth up (st_ports s) []) 0 with Some h => Ok h s [] | None => Err [] end)
         by (intros up s0; pyr; destruct (nth_error (nth up (st_ports s0) []) 0); reflexivity);
       pose proof (mapM_heads f Hf B [] st eq_refl C) as Hm; change (length (@nil (list (val * md)))) with 0 in Hm; rewrite Hm end.
     pyr. rewrite bind_unfold. unfold wr_get at 1. cbn [st_ports set_ports]. rewrite C. pyr. unfold unzip_pairs. cbn [fst snd]. rewrite flatten_md_map_snd.
-    destruct lits as [|l lits]; pyr; reflexivity.
-  - destruct (maxsize <? length (nth p B [])); reflexivity.
+    destruct lits as [|l lits]; pyr; reflexivity. }
+  all: destruct (maxsize <? length L); reflexivity.
 Qed.
 
 Theorem bridge_update_zip lits maxsize s p x m : p < length (st_ports s) ->
